@@ -113,7 +113,7 @@ class ReactiveStdin(object):
     errors = "strict"
 
 
-def run_builder(fam, all_metrics, no_colors, script, default=None, max_questions=400, version_arg=None):
+def run_builder(fam, all_metrics, no_colors, script, default=None, max_questions=4000, version_arg=None):
     """Runs the real ask_interactively. Returns dict(result|eof|exc, asked, prompts, answers, out)."""
     import cvss.interactive as I
 
